@@ -66,7 +66,11 @@ inline void hook(int kind, const volatile void* addr)
 	s.trace.push_back(e);
 }
 
+#ifdef ASL_VERIF
 inline void install() { asl_verif_hook() = hook; }
+#else
+inline void install() {}   // production-build pass: no hook points; only the free-running ops mean anything
+#endif
 
 // Run the bodies as controlled threads under the schedule prefix (then always the lowest enabled thread).
 // Returns the decisions taken.  `deadlock` is set if unfinished threads remain but none is enabled.
